@@ -665,7 +665,12 @@ class Arbiter(object):
             rlist, wlist, xlist = select.select(sockets, [], [], 0)
             if rlist:
                 self.socket_event = True
-                self._start_watchers()
+                # only the on-demand watchers wait for this: a watcher that
+                # has been stopped on request must stay stopped
+
+                def on_demand_watchers():
+                    return [w for w in self.iter_watchers() if w.on_demand]
+                self._start_watchers(watcher_iter_func=on_demand_watchers)
                 self.socket_event = False
 
     @synchronized("arbiter_reload")
